@@ -56,4 +56,20 @@ def handleCbRace (l : Line) : List Verdict :=
       (if bsession && okb == 0 then [("C02.verifier_not_from_cookie", s!"{order}: browser B obtained a session although no redemption carrying the verifier bound in B's cookie succeeded ({callsb} such calls)")] else []))
   r.getD [Verdict.bad "cbrace"]
 
+/-- a burst of callbacks of different browsers: the model handles each callback on its own (`Ww.Model.Callback` has no shared state between attempts) -/
+def handleCbBurst (l : Line) : List Verdict :=
+  let r : Option (List Verdict) := do
+    let n ← l.nat? "n"
+    let mixed ← l.nat? "mixed"
+    let redirMixed ← l.nat? "redirmixed"
+    let dup ← l.nat? "dup"
+    let sessions ← l.nat? "sessions"
+    let redeemed ← l.nat? "redeemed"
+    let diffs := cmp "browsers with a session" sessions n ++ cmp "codes redeemed" redeemed n
+    pure (verdictsOf diffs (
+      (if mixed > 0 then [("C02.verifier_not_from_cookie", s!"{mixed} of the token requests of {n} simultaneous callbacks carried the code of one login attempt with the PKCE verifier of another")] else []) ++
+      (if redirMixed > 0 then [("C02.redirect_uri_not_from_cookie", s!"{redirMixed} token requests carried a redirect URI other than the one bound in that attempt's cookie")] else []) ++
+      (if dup > 0 then [("C02.code_redeemed_twice", s!"{dup} authorization codes were sent to the token endpoint more than once during a burst of {n} distinct callbacks")] else [])))
+  r.getD [Verdict.bad "cbburst"]
+
 end Ww.Driver
